@@ -22,7 +22,11 @@ MaxOf(a) == CHOOSE x \in {a[r][c] : r \in Idx, c \in Idx} : \A r \in Idx, c \in 
 FirstMax(a) == LET mx == MaxOf(a)
                    pos == {<<r, c>> \in Idx \X Idx : a[r][c] = mx}
                IN CHOOSE p \in pos : \A q \in pos : p[1] < q[1] \/ (p[1] = q[1] /\ p[2] <= q[2])
-SInit == m0 \in Mats /\ m = m0 /\ out = [r \in Idx |-> 0] /\ k = 0 /\ zeroFaced = FALSE
+\* DomOnly: restrict the initial matrices to the dominant-permutation class (entry MaxEntry on a permutation, smaller elsewhere)
+CONSTANT DomOnly
+DomMat(s, o) == [r \in Idx |-> [c \in Idx |-> IF c = s[r] THEN MaxEntry ELSE o[r][c]]]
+SInit == /\ IF DomOnly THEN \E s \in Perms : \E o \in [Idx -> [Idx -> 0..(MaxEntry - 1)]] : m0 = DomMat(s, o) ELSE m0 \in Mats
+         /\ m = m0 /\ out = [r \in Idx |-> 0] /\ k = 0 /\ zeroFaced = FALSE
 Pick == /\ k < N
         /\ LET p == FirstMax(m) IN
              /\ zeroFaced' = (zeroFaced \/ m[p[1]][p[2]] = 0)
